@@ -1062,7 +1062,7 @@ def specs(prop, tier, seed, timeout=900):
 
     def ob(init, pers, depth, prefix):
         tag = "uni/%s%s/d%d" % (init, "/persistent" if pers else "", depth) + "".join("/" + EVENTS[f] for f in prefix)
-        return dict(id=tag, fn="uni_history", params={"prop": prop, "init": init, "depth": depth, "prefix": list(prefix), "persistent": pers},
+        return dict(id=tag, fn="uni_history", keep_logging=True, params={"prop": prop, "init": init, "depth": depth, "prefix": list(prefix), "persistent": pers},
                     timeout=timeout * (1 if depth == 2 else 3),
                     bound="every %d-event wire-level history over %d events%s from initial state '%s' (%s peers); monitor of %s after every event" % (
                         depth, ne, (" starting with " + ",".join(EVENTS[f] for f in prefix)) if prefix else "", init, "persistent" if pers else "non-persistent", prop))
